@@ -20,6 +20,7 @@ ASSUMPTIONS = ['instances whose sampled blocks have sigma_rho/sigma_1 < 1e-5 '
     '(from the dense target restricted to the sample set) are not judged',
     'recovery tolerance 1e-7 max|T| ("up to rounding" for blocks of '
     'conditioning <= 1e5)']
+COVER = ['svd.svd_incomplete', 'sample.sample_tt', 'sample.sample_lhs']
 SHARDS = {'quick': 12, 'thorough': 16}
 MAX_SKIP_FRACTION = 0.3
 
